@@ -93,6 +93,8 @@ def render(scope, depth=0, array=False):
         if it[0] == "enum":
             lines.append("%senum %s : uint%d {" % (ind, it[1], it[2]))
             lines.append("%s    %s_W%d_%s = 0" % (ind, it[1].upper(), it[2], (scope.name or "F").upper()))
+            # a member with the top and the bottom bit of this definition's width set
+            lines.append("%s    %s_W%d_%s_TOP = %d" % (ind, it[1].upper(), it[2], (scope.name or "F").upper(), ((1 << (it[2] - 1)) | 1) if it[2] > 1 else 1))
             lines.append("%s}" % ind)
         elif it[0] == "msg":
             lines.append("%smessage %s {" % (ind, it[1].name))
@@ -126,7 +128,28 @@ LIA = lib_model("lia", (31, 32, 33))
 
 def lib_text(m):
     # each imported file has its own C name prefix: the C names of its definitions differ from the importer's homonyms
-    return "proto %s\n\noption c.name_prefix = \"%s\"\n\n" % (m.name, m.name.capitalize()) + "\n".join(render(m)) + "\n"
+    return "proto %s\n\noption c.name_prefix = \"%s\"\n\n" % (m.name, "Q" + m.name) + "\n".join(render(m)) + "\n"
+
+
+def py_roundtrip(main_path, outdir, class_names, width, array):
+    """The Python back end's view, by execution: the field f must carry `width` bits (top and bottom bit set survive a round trip)."""
+    from ..pyback import PyModuleSet, render_all_files
+    render_all_files(main_path, "py", outdir)
+    ms = PyModuleSet(outdir, "t")
+    mod = ms.load()
+    try:
+        cls = getattr(mod, "_".join(class_names))
+        o = cls()
+        v = ((1 << (width - 1)) | 1) if width > 1 else 1
+        if array:
+            o.f[0], o.f[1] = v, 1
+        else:
+            o.f = v
+        o2 = cls()
+        o2.decode(o.encode())
+        return v, (int(o2.f[0]) if array else int(o2.f))
+    finally:
+        ms.unload()
 
 
 C_TYPEDEF = re.compile(r"^typedef \w+ (\w+); // (\d+)bit", re.M)
@@ -153,7 +176,7 @@ def c_width_of_field_f(main_path, outdir):
 SITE_W = {("F", "b"): 1, ("A", "b"): 2, ("B", "b"): 3, ("C", "b"): 4, ("C", "a"): 5, ("B", "a"): 6, ("A", "a"): 7, ("F", "a"): 8}
 
 
-def build(choice, use_scope, dotted, shadow_import=None, name="X", early=None):
+def build(choice, use_scope, dotted, shadow_import=None, name="X", early=None, own_name_homonym=False):
     """choice: {scope letter: None|'b'|'a'} declaration of `name` before/after the use path.
     use_scope: 'C' | 'B' | 'A' | 'D' (a top-level message after A).
     shadow_import: (scope letter, width) -> a nested message named `lib` containing enum X."""
@@ -162,6 +185,11 @@ def build(choice, use_scope, dotted, shadow_import=None, name="X", early=None):
     f.add(("import", "al", LIA, True))
     f.add(("const", "K", 2))
     f.add(("enum", "P", 1))  # every pad field performs a NAMED lookup (stale search paths after a closing brace)
+    if own_name_homonym:
+        # lia.bitproto is imported AS `al`; a local message that carries the imported file's own proto name is a different thing
+        own = Sc(LIA.name)
+        own.add(("enum", "X", 13))
+        f.add(("msg", own))
     A, B, C, D = Sc("A"), Sc("B"), Sc("C"), Sc("D")
 
     def decl(letter, when, sc):
@@ -266,6 +294,10 @@ def cases(tier):
                     out.append(dict(kind="two-uses", choice=choice, use=use, dotted=dotted, shadow=None, early=early))
                     if dotted == "X":
                         out.append(dict(kind="two-uses", choice=choice, use=use, dotted=dotted, shadow=None, early=early, array=True))
+    # (3c) `import al "lia.bitproto"` next to a local message named `lia`: al.* is the imported file, lia.* the local message
+    for use in "CBAD":
+        for dotted in ("al.X", "al.A.X", "al.A.B.X", "lia.X", "lib.X"):
+            out.append(dict(kind="as-homonym", choice=dict(zip("FABC", (None,) * 4)), use=use, dotted=dotted, shadow=None, own_name_homonym=True))
     # (4) constants as capacities
     for use in "CBAD":
         for dotted in ("K", "lib.K", "al.K", "KL", "lib.KX"):
@@ -278,7 +310,7 @@ def materialise(case):
         f = build({}, case["use"], "bool[%s]" % case["dotted"])
         f.add(("const", "KL", 9))  # declared after every use
     else:
-        f = build(case["choice"], case["use"], case["dotted"], case["shadow"], early=case.get("early"))
+        f = build(case["choice"], case["use"], case["dotted"], case["shadow"], early=case.get("early"), own_name_homonym=bool(case.get("own_name_homonym")))
     text = "proto t\n\n" + "\n".join(render(f, array=bool(case.get("array")))) + "\n"
     return f, text
 
@@ -423,6 +455,17 @@ def run_unit(unit):
                 out.count("c_checks")
                 if cw != exp_val:
                     viol("c_struct_uses_other_definition", "struct member f is declared with C type %r, whose typedef says %s bit; the resolved definition has %d" % (cname, cw, exp_val))
+            if case["kind"] in ("as-homonym", "shadow-import") or (case["kind"] != "const" and (case["dotted"].split(".")[0] in ("lib", "al", "lia") or k % 4 == 0)):
+                # ... and the one the generated PYTHON actually encodes with
+                try:
+                    with watchdog(20):
+                        sent, back = py_roundtrip(path, sc.sub("p%d" % k), names, exp_val, bool(case.get("array")))
+                except BaseException as e:  # noqa
+                    viol("python_output_fails:" + type(e).__name__, exc_summary(e)[:300])
+                    continue
+                out.count("py_runs")
+                if sent != back:
+                    viol("python_encodes_with_other_definition", "a value with bits 0 and %d set (%d) comes back as %d from the generated Python" % (exp_val - 1, sent, back))
             if k % 50 == 0:
                 out.sample(dict(case=dict(case, choice=dict(case["choice"])), resolved_width=got, schema=text[-500:]))
     return out.result()
@@ -439,13 +482,13 @@ def main(pid, tier):
     acc.merge(run_units(units(tier), run_unit, maxtasks=20))
     c = acc.counters
     g = []
-    for need in ("kind:simple", "kind:dotted", "kind:shadow-import", "kind:const", "kind:two-uses", "shadowing"):
+    for need in ("kind:simple", "kind:dotted", "kind:shadow-import", "kind:const", "kind:two-uses", "kind:as-homonym", "shadowing"):
         if acc.classes.get(need, 0) < 1:
             g.append("no case of " + need)
     if c["c_checks"] < 100:
         g.append("C struct checks %d" % c["c_checks"])
     cov = dict(states=c["states"], transitions=c["transitions"], traces_validated_against_impl=c["traces"], evaluations=c["evaluations"],
-               distinct_nontrivial=c["nontrivial"], layout_checks=c["layout_checks"], c_struct_checks=c["c_checks"], corner_cases_both_outcomes_accepted=c["corner_first_component_without_rest"],
+               distinct_nontrivial=c["nontrivial"], layout_checks=c["layout_checks"], c_struct_checks=c["c_checks"], python_round_trips=c["py_runs"], corner_cases_both_outcomes_accepted=c["corner_first_component_without_rest"],
                rule="skeleton file > A > B > C (+ imported files lib / lia as `al`, each with A > B): for the simple name X all 3^4 combinations of "
                     "declaration sites (per scope none/before/after) x 4 use scopes; 17 dotted uses x site combinations; a nested message named like "
                     "an import; constants as capacities; every declaration has a distinct bit width so the resolved definition is identified by "
